@@ -177,6 +177,20 @@ func init() {
 		},
 	}
 
+	clusterOverlay := []Inject{{RepoRel: "internal/cluster/zz_verif_export.go", Src: "overlay/cluster_export.go.txt"}}
+	registry["C18"] = &Check{
+		Rule: "2-7 real cluster.NodeActor values in a deterministic discrete-event simulation on a virtual clock (package csim: one queue per node, handlers run to completion except inside Ask, per-link FIFO, every message through the library's remoting envelope codec, global math/rand seeded per case): seed layouts (one seed; two seeds listed by all = two self-seeded islands that must merge; mixed: every other node lists a drawn subset), start offsets 0-8 s in any order (a node may start before its seed: first join attempt fails), per-message latencies 0-400 ms and losses from drawn tapes, a fault phase of 0-30 s (+ up to two detection timeouts) with 1-6 faults from {partition into two drawn sides, heal, reset of all connections (in-flight messages dropped), loss on/off, restart of a non-seed node, crash, graceful leave}; then every partition heals, losses stop and a quiet phase is observed. Regime S: failure-detection timeout longer than the scenario (no timeout can fire), quiet phase 180 s, strict oracle at its end: identical views (id, address, generation, incarnation stamp, status), membership == running nodes, every node computes the smallest running address as leader, exactly one node's last ClusterLeaderChangedEvent says IAmLeader and it is that node, no membership / leader event in the last third. Regime L: timeout 40 s (default), 10 s or 5 s, quiet phase 8 x (timeout + detection period), judged over its second half by sampling every timeout/8: a running node absent from a running node's view in every sample, a dead node listed in every sample and never announced as removed, two nodes computing different leaders in every sample = violations; the transient forms (absent / listed / different in some samples; membership and leader announcements that never stop) are the listed known findings. Both regimes: wherever a restarted node is listed in the window, the entry is its running incarnation's (stamp, address, generation); every node lists itself. Non-trivial = at least two kinds of fault happened, or a join attempt failed, or >= 3 nodes. Distinct = hash of the case.",
+		Assumptions: []string{
+			"'eventually' is read with a bounded horizon: 180 s (S) or 8 x 1.5 x the detection timeout (L) after the last fault; a violation that needs longer to appear is missed, a convergence that needs longer would be reported - on the unchanged tree none of 16 000 generated cases needed longer",
+			"the simulation replaces the actor runtime and TCP (covered by C01-C15) by their contracts; what the runtime adds (a Tell to an unreachable peer blocks the node for the reconnect back-off, known finding of C14) only delays a node",
+			"a node that crashed or left without being restarted is only generated in regime L: without timeouts nothing can remove it",
+			"white-box reads (NodeActor.clusterView) go through an overlay-only accessor file compiled into internal/cluster at check time",
+		},
+		Units: []Unit{
+			{Name: "converge", Pkg: "c18", Run: "^TestC18Converges$", QuickChecks: 600, QuickShards: 8, ThoroughChecks: 20000, ThoroughShards: 16, CaseFile: true, CrashOracle: "no-crash", Inject: clusterOverlay, QuickTimeout: 20 * time.Minute, ThoroughTimeout: 120 * time.Minute},
+		},
+	}
+
 	msgOverlay := []Inject{{RepoRel: "internal/messages/zz_verif_export.go", Src: "overlay/messages_export.go.txt"}}
 	registry["C12"] = &Check{
 		Rule: "message layer: for a registered wire type drawn from the registry (enumerated at run time through an overlay accessor; a type without a generator fails the harness) a value is generated field by field (empty/nil/zero/extreme constants mixed with uniform draws, nested messages to depth 3, nil message fields, absent refs), encoded with Writer.WriteMessage and decoded with Reader.ReadMessage; plus two messages back to back. Envelope layer: system flag x sender/receiver present/absent x internal/custom/Codec message. Primitive layer: 1-4 values of types drawn from a grammar (13 primitives, slices, arrays, structs, depth 3), both byte orders, by value and by pointer. Oracle: semantic equality (documented normalisations), reader position == bytes written. Non-trivial = the value differs from its type's zero value (message layer), contains a composite type (primitive layer), any envelope. Distinct = hash of the encoded bytes.",
@@ -311,17 +325,18 @@ func init() {
 	}
 
 	registry["C11"] = &Check{
-		Rule: "two real systems on loopback TCP (fresh per case, real clock) with the generator's byte-level proxy between sender and receiver: 1-4 concurrent senders x bursts of 1-600 (2000 in thorough) messages with body sizes from {0,1,2,100,1000,4090,4094..4097,5000,65535,70000, 1 MiB, 4 MiB-1000, 4 MiB-400 (the envelope adds up to ~140 bytes)}, every k-th message an Ask (reply must come back), optionally a burst in the other direction; the proxy re-chunks the sender's byte stream by a drawn plan: frame-exact, 1-byte writes, 2-50 frames coalesced into one write, every frame split at a drawn offset 1-12, fixed chunks of 1-4096 bytes; plus fixed regression shapes incl. a connection that has been idle for 10.6 s. Loss is decided without a timeout oracle: after the burst, fence messages are sent one at a time on the idle link; once one is processed everything before it has been consumed (TCP order); if none arrives and the receiver reported nothing, the case is inconclusive (not counted). Oracle: per sender exactly 0..n-1 in order, byte-identical; every Ask got the reply to its own request; the sender reference seen by the receiver is the sending system; no RemotingMessageDecodeFailedEvent; an idle connection is not torn down by the library. Non-trivial = the proxy made at least one write that ended inside a frame or contained a frame boundary. Distinct = hash of the case.",
+		Rule:        "two real systems on loopback TCP (fresh per case, real clock) with the generator's byte-level proxy between sender and receiver: 1-4 concurrent senders x bursts of 1-600 (2000 in thorough) messages with body sizes from {0,1,2,100,1000,4090,4094..4097,5000,65535,70000, 1 MiB, 4 MiB-1000, 4 MiB-400 (the envelope adds up to ~140 bytes)}, every k-th message an Ask (reply must come back), optionally a burst in the other direction; the proxy re-chunks the sender's byte stream by a drawn plan: frame-exact, 1-byte writes, 2-50 frames coalesced into one write, every frame split at a drawn offset 1-12, fixed chunks of 1-4096 bytes; two further shapes: frames whose announced length is exactly 4 MiB-d for d in 1..8 (the body length is computed with the library's own envelope encoder) alternating with tiny ones, and concurrent first contact (2-6 goroutines released together as the very first traffic towards the peer, sender 0 starting with a 70 KB-2 MiB message followed by tiny ones; also a unit of its own); plus fixed regression shapes incl. a connection that has been idle for 10.6 s. Loss is decided without a timeout oracle: after the burst, fence messages are sent one at a time on the idle link; once one is processed everything before it has been consumed (TCP order); if none arrives and the receiver reported nothing, the case is inconclusive (not counted). Oracle: per sender exactly 0..n-1 in order, byte-identical; every Ask got the reply to its own request; the sender reference seen by the receiver is the sending system; no RemotingMessageDecodeFailedEvent; an idle connection is not torn down by the library. Non-trivial = the proxy made at least one write that ended inside a frame or contained a frame boundary, or the case is a near-limit or concurrent-first-contact one. Distinct = hash of the case.",
 		Assumptions: []string{"read boundaries at the receiver are influenced by the proxy's writes (with pauses), not dictated; the oracle does not depend on them", "real-time waits are patience only: a fence that never arrives without any receiver-side event makes the case inconclusive"},
-		Serial: true,
+		Serial:      true,
 		Units: []Unit{
-			{Name: "link", Pkg: "c11", Run: "^(TestC11HealthyLink|TestC11Regressions)$", QuickChecks: 25, ThoroughChecks: 400, ThoroughShards: 4, CaseFile: true, CrashOracle: "no-crash", QuickTimeout: 15 * time.Minute, ThoroughTimeout: 90 * time.Minute},
+			{Name: "link", Pkg: "c11", Env: map[string]string{"VERIF_FAILFAST": "1"}, Run: "^(TestC11HealthyLink|TestC11Regressions)$", QuickChecks: 25, ThoroughChecks: 400, ThoroughShards: 4, CaseFile: true, CrashOracle: "no-crash", QuickTimeout: 15 * time.Minute, ThoroughTimeout: 90 * time.Minute},
+			{Name: "first-contact", Pkg: "c11", Env: map[string]string{"VERIF_FAILFAST": "1"}, Run: "^TestC11FirstContact$", QuickChecks: 40, ThoroughChecks: 400, ThoroughShards: 2, CaseFile: true, CrashOracle: "no-crash", QuickTimeout: 15 * time.Minute, ThoroughTimeout: 90 * time.Minute},
 		},
 	}
 
 	registry["C14"] = &Check{
 		Level: "fault_enumeration",
-		Rule:  "two real systems on loopback with the generator's fault proxy (fresh per case): (1) a stream of 3-6 frames (bodies 0-1000 bytes) with the connection cut after a byte offset - in the enumeration unit EVERY offset of a fixed 4-frame stream (thorough) or every frame boundary +-2 and the first bytes (quick), in the random unit offsets drawn near boundaries and anywhere; (2) the next 1-5 connection attempts refused against a ReconnectLimit of 0-3; (3) the peer stopped and restarted on the same addresses between bursts; (4) an injected well-framed but undecodable body of 1-5000 bytes before a drawn frame; (5) an injected length prefix above the 4 MiB limit; after every fault the proxy heals and the sender sends again. Oracle: the receiver's sequence is a subsequence of what was sent (no duplicate, no reordering, bodies byte-identical, nothing invented); refused attempts >= limit+1 => exactly one dead letter on the sending side and no delivery, fewer => delivered by a retry and no dead letter; after an undecodable body every real frame of the same connection is delivered; after any fault the link recovers (a probe is delivered within 8 attempts) and every message sent after that is delivered; no message is dead-lettered twice. (6) Tell with the peer unreachable: the caller's goroutine is looked for in the reconnect loop by a stack scan (the property's own observation point). Non-trivial = the cut fell strictly inside a frame, or a retry / refusal / injection / restart happened. Distinct = hash of the case.",
+		Rule:  "two real systems on loopback with the generator's fault proxy (fresh per case): (1) a stream of 3-6 frames (bodies 0-1000 bytes) with the connection cut after a byte offset - in the enumeration unit EVERY offset of a fixed 4-frame stream (thorough) or every frame boundary +-2 and the first bytes (quick), in the random unit offsets drawn near boundaries and anywhere; (2) the next 1-5 connection attempts refused against a ReconnectLimit of 0-3; (3) the peer stopped and restarted on the same addresses between bursts; (4) an injected well-framed but undecodable body of 1-5000 bytes before a drawn frame; (4b) an injected well-framed envelope that decodes but cannot be routed (empty / malformed sender address, sender path without a slash, receiver path with blanks or of no actor, malformed receiver address); (5) an injected length prefix above the 4 MiB limit; after every fault the proxy heals and the sender sends again. Oracle: the receiver's sequence is a subsequence of what was sent (no duplicate, no reordering, bodies byte-identical, nothing invented); refused attempts >= limit+1 => exactly one dead letter on the sending side and no delivery, fewer => delivered by a retry and no dead letter; after an undecodable body or an unroutable envelope every real frame of the same connection is delivered; after any fault the link recovers (a probe is delivered within 8 attempts) and every message sent after that is delivered; no message is dead-lettered twice. (6) Tell with the peer unreachable: the caller's goroutine is looked for in the reconnect loop by a stack scan (the property's own observation point). Non-trivial = the cut fell strictly inside a frame, or a retry / refusal / injection / restart happened. Distinct = hash of the case.",
 		Assumptions: []string{
 			"frames that the kernel accepted before a cut may be lost (TCP): loss is allowed, only corruption / duplication / reordering is not",
 			"after an invalid length prefix the stream cannot be resynchronised: only no-crash, no corrupted delivery and recovery on a new connection are required",
@@ -329,7 +344,7 @@ func init() {
 		},
 		ExhaustiveKey: "connection cut after every byte offset of a fixed 4-frame stream (thorough tier)",
 		Units: []Unit{
-			{Name: "faults", Pkg: "c14", Run: "^TestC14Faults$", QuickChecks: 25, ThoroughChecks: 300, ThoroughShards: 4, CaseFile: true, CrashOracle: "no-crash", QuickTimeout: 20 * time.Minute, ThoroughTimeout: 120 * time.Minute},
+			{Name: "faults", Pkg: "c14", Env: map[string]string{"VERIF_FAILFAST": "1"}, Run: "^TestC14Faults$", QuickChecks: 25, ThoroughChecks: 300, ThoroughShards: 4, CaseFile: true, CrashOracle: "no-crash", QuickTimeout: 20 * time.Minute, ThoroughTimeout: 120 * time.Minute},
 			{Name: "cuts", Pkg: "c14", Run: "^TestC14CutEveryOffset$", ThoroughShards: 8, CaseFile: true, CrashOracle: "no-crash", QuickTimeout: 20 * time.Minute, ThoroughTimeout: 120 * time.Minute},
 			{Name: "tell", Pkg: "c14", Run: "^TestC14TellDoesNotBlock$", CaseFile: true},
 		},
